@@ -22,9 +22,9 @@ def isa_yaml(case):
     doc = {'description': 'verif vocab', 'general': {'address_size': 16, 'endian': 'big', 'registers': list(case['regs']),
                                                        'identifier': {'name': 'vocab-test', 'version': '1.2.3'}},
            'operand_sets': {'s0': {'operand_values': {'n': {'type': 'numeric', 'argument': {'size': 8, 'byte_align': True}}}}},
-           'instructions': {m: {'bytecode': {'value': i % 256, 'size': 8}} for i, m in enumerate(case['instrs'])}}
+           'instructions': {case.get('keycase', {}).get(m, m): {'bytecode': {'value': i % 256, 'size': 8}} for i, m in enumerate(case['instrs'])}}
     if case['macros']:
-        doc['macros'] = {m: [{'instructions': [case['instrs'][0]]}] for m in case['macros']}
+        doc['macros'] = {case.get('keycase', {}).get(m, m): [{'instructions': [case['instrs'][0]]}] for m in case['macros']}
     if case['labels']:
         doc['predefined'] = {'constants': [{'name': n, 'value': i} for i, n in enumerate(case['labels'])]}
     return yaml.safe_dump(doc, sort_keys=False)
@@ -163,7 +163,12 @@ def gen_vocab_cases(rng, tier):
             probes.update([nm + 'x', 'x' + nm, nm.upper(), nm[:-1] if len(nm) > 1 else nm + 'q', nm.replace('.', 'z'), nm + '_', nm.capitalize()])
         probes.update(['zz', 'org', 'byte', 'define', 'LSB', 'l', 'ldxx'])
         probes = sorted(p for p in probes if p)
-        out.append({'instrs': instrs, 'macros': macros, 'regs': regs, 'labels': labels, 'probes': probes})
+        # the ISA file may spell mnemonics and macro names in any letter case; the vocabulary is their lower-case form
+        keycase = {}
+        for nm in instrs + macros:
+            if rng.random() < 0.3:
+                keycase[nm] = rng.choice([nm.upper(), nm.capitalize()])
+        out.append({'instrs': instrs, 'macros': macros, 'regs': regs, 'labels': labels, 'probes': probes, 'keycase': keycase})
     return out
 
 
